@@ -90,13 +90,19 @@ pub fn run(ctx: &mut Ctx) {
         let base: Spec = container::random_spec(&mut crng, Mode::OneFile, comp, if ctx.quick() { 6 } else { 12 }, extra);
         let expected = container::expected_dump(&base);
         let root = ctx.work.join(format!("c10-{}", case));
+        // file names are the locations recorded in the manifest: every few containers they have the maximal
+        // length a location can have (213 bytes for `<name>.jbkc` / `<name>.jbkd`), or one byte less
+        let name: String = if extra == 0 && case % 6 == 0 { "n".repeat(208) } else if extra == 0 && case % 6 == 3 { "m".repeat(207) } else { "c".to_string() };
+        ctx.count(&format!("location_len:{}", name.len() + 5));
         let mut narr = 0u64;
         for mode in Mode::ALL {
             let mut spec = base.clone();
             spec.mode = mode;
             let dir = root.join(mode.name());
             std::fs::create_dir_all(&dir).unwrap();
-            let entry = match util::guarded(|| container::build(&dir, "c", &spec)) {
+            // (the directory pack of the no-concat packaging is named `<name>..jbkd`: one byte more)
+            let name: String = if mode == Mode::NoConcat && name.len() == 208 { name[..207].to_string() } else { name.clone() };
+            let entry = match util::guarded(|| container::build(&dir, &name, &spec)) {
                 Ok(Ok(p)) => p,
                 other => {
                     ctx.fail(case, "create", &format!("creation ({}) failed: {:?}", mode.name(), other));
